@@ -101,7 +101,7 @@ def run(spec, tier, seed, replay_path=None):
     # ---- L2: site table
     lines = []
     for a in facts.get("accesses", []):
-        lines.append("%s %s %s %s %s" % (a["field"], a["func"], a["kind"], "L" if a["locked"] else "-", ",".join(a["after"]) or "-"))
+        lines.append("%s %s %s %s %s %s" % (a["field"], a["func"], a["kind"], "L" if a["locked"] else "-", ",".join(a["after"]) or "-", ",".join(a.get("then", [])) or "-"))
     script = os.path.join(rundir, "script.txt")
     open(script, "w").write("\n".join(lines) + "\n")
     verdicts, rejected, nontrivial = [], [], 0
